@@ -126,12 +126,18 @@ def gen_if(c, depth, loop_depth, blocks_in_loop, fn_ret, n_elif):
     sc.push_block()
     then = gen_block(c, depth + 1, loop_depth, blocks_in_loop + (1 if loop_depth else 0), fn_ret, 3)
     sc.pop_block()
+    if g.chance(10):
+        then = []                 # a block without statements is a block too
+        g.label("empty-then-block")
     els = None
     kind = g.weighted([(3, "none"), (3, "else"), (2 if n_elif > 0 else 0, "elif")])
     if kind == "else":
         sc.push_block()
         els = gen_block(c, depth + 1, loop_depth, blocks_in_loop + (1 if loop_depth else 0), fn_ret, 3)
         sc.pop_block()
+        if g.chance(18):
+            els = []
+            g.label("empty-else-block")
         g.label("if-else")
     elif kind == "elif":
         els = gen_if(c, depth, loop_depth, blocks_in_loop, fn_ret, n_elif - 1)
@@ -181,6 +187,9 @@ def gen_from(c, depth, loop_depth, fn_ret):
     if name:
         sc.protected.add(name)
     body = gen_block(c, depth + 1, loop_depth + 1, 0, fn_ret, 4)
+    if g.chance(8):
+        body = []
+        g.label("empty-loop-body")
     if name and not was_protected and namek == "collide":
         sc.protected.discard(name)
     sc.pop_block()
@@ -299,6 +308,12 @@ def check(case):
             r.rejected = True
             if os.environ.get("MSV_DEBUG"):
                 print("REJECTED:\n" + src + "\n" + run.stdout[:600])
+            if failure is None:
+                # the reference interpreter runs this program to completion: a compile-time rejection of it is a violation
+                # (when the model predicts a run-time failure, the compiler may legitimately report it earlier)
+                diag = "\n".join(l for l in run.stdout.split("\n") if " = " in l or "-->" in l)[:600]
+                r.failure = fail("the compiler rejected a program that the language accepts and the reference interpreter runs:\n" + diag + "\n" + src,
+                                 "C01:rejected-valid-program", sc, case={"diagnostics": diag})
             return r
         sym = "stdout" if run.stdout != sc["asserts"][0]["value"] else "exit"
         feats = [l for l in case["labels"] if l.startswith("feat:")]
